@@ -50,8 +50,8 @@ Proof. destruct w, m; simpl; intros H; inversion H; repeat split; auto; discrimi
 
 Lemma prog_ok_skip m w f r : prog_ok m (SA w f :: r) = true -> prog_ok m r = true.
 Proof.
-  simpl. destruct (next_mode m (SA w f)) as [m'|] eqn:E; [|discriminate].
-  apply next_mode_acc in E. destruct E as [-> _]. auto.
+  cbn [prog_ok]. destruct (next_mode m (SA w f)) as [m'|] eqn:E; [|intros H; discriminate H].
+  pose proof (next_mode_acc _ _ _ _ E) as [-> _]. auto.
 Qed.
 
 Section Client.
@@ -87,9 +87,9 @@ Section Client.
     - intros t' N. unfold pmode. inversion H; subst; rewrite pupd_other by exact N; reflexivity.
     - unfold pmode. inversion H; subst; rewrite pupd_same; simpl.
       + auto.
-      + match goal with E : next_mode _ (SL _) = Some _ |- _ => apply next_mode_lock in E end.
+      + match goal with E : next_mode _ (SL _) = Some _ |- _ => pose proof (next_mode_lock _ _ _ E) as Hl end.
         destruct o0; tauto.
-      + match goal with E : next_mode _ (SA _ _) = Some _ |- _ => apply next_mode_acc in E end. tauto.
+      + match goal with E : next_mode _ (SA _ _) = Some _ |- _ => pose proof (next_mode_acc _ _ _ _ E) as Hl end. tauto.
       + reflexivity.
   Qed.
 
@@ -104,9 +104,9 @@ Section Client.
     intros Hok H t'. destruct (Nat.eq_dec t' t) as [->|N].
     - specialize (Hok t). inversion H; subst; rewrite pupd_same; simpl.
       + apply progs_ok. assumption.
-      + match goal with E : tp _ = _ |- _ => rewrite E in Hok end. simpl in Hok.
+      + match goal with E : tp _ = _ |- _ => rewrite E in Hok end. cbn [prog_ok] in Hok.
         match goal with E : next_mode _ _ = Some _ |- _ => rewrite E in Hok end. exact Hok.
-      + match goal with E : tp _ = _ |- _ => rewrite E in Hok end. simpl in Hok.
+      + match goal with E : tp _ = _ |- _ => rewrite E in Hok end. cbn [prog_ok] in Hok.
         match goal with E : next_mode _ _ = Some _ |- _ => rewrite E in Hok end. exact Hok.
       + match goal with E : tp _ = _ |- _ => rewrite E in Hok end. eapply prog_ok_skip; eauto.
     - inversion H; subst; rewrite pupd_other by exact N; apply Hok.
@@ -115,7 +115,7 @@ Section Client.
   (* a checked thread is never stuck on a statement for a reason other than the lock being busy *)
   Lemma ok_progress s t st r : all_ok s -> tp (s t) = st :: r -> exists m', next_mode (tm (s t)) st = Some m'.
   Proof.
-    intros Hok E. specialize (Hok t). rewrite E in Hok. simpl in Hok.
+    intros Hok E. specialize (Hok t). rewrite E in Hok. cbn [prog_ok] in Hok.
     destruct (next_mode (tm (s t)) st) as [m'|]; [eauto|discriminate].
   Qed.
 
@@ -134,10 +134,10 @@ Section Client.
     sys_reach St pstep (lock_init, pinit) (l, s) -> about_to s t w f ->
     pmode s t <> Out /\ (w = true -> pmode s t = InW).
   Proof.
-    intros Hr [r E]. pose proof (all_ok_reach _ _ all_ok_init Hr t) as Hok. simpl in Hok.
-    rewrite E in Hok. simpl in Hok. unfold pmode.
+    intros Hr [r E]. pose proof (all_ok_reach (lock_init, pinit) (l, s) all_ok_init Hr t) as Hok. simpl in Hok.
+    rewrite E in Hok. cbn [prog_ok] in Hok. unfold pmode.
     destruct (next_mode (tm (s t)) (SA w f)) as [m'|] eqn:En; [|discriminate].
-    apply next_mode_acc in En. tauto.
+    pose proof (next_mode_acc _ _ _ _ En) as Hacc. tauto.
   Qed.
 
   (* NO DATA RACE in the model: in no reachable state is a write to a guarded field enabled together with
@@ -149,8 +149,8 @@ Section Client.
     intros Hr N Ha Hb.
     destruct (access_inside _ _ _ _ _ Hr Ha) as [_ Hw]. specialize (Hw eq_refl).
     destruct (access_inside _ _ _ _ _ Hr Hb) as [Hn _].
-    apply Hn. eapply (rw_mutual_exclusion St pmode pstep client_bracketed pinit l s); eauto.
-    intros t0. reflexivity.
+    apply Hn.
+    exact (rw_mutual_exclusion St pmode pstep client_bracketed pinit l s (fun _ => eq_refl) Hr t t' N Hw).
   Qed.
 
   (* the unlock calls are only ever applied by a thread that holds the lock in that mode *)
